@@ -530,6 +530,31 @@ func (x *Exec) intrinsic(fr *frame, st *State, q string, callee *ssa.Function, a
 		return x.freshResult(st, "sprintf", resT), true
 	case "log.Printf", "log.Println", "log.Print":
 		return Value{}, true
+	case "reflect.ValueOf":
+		// an opaque reflect.Value that remembers which interface value it was made from
+		if len(args) == 1 && len(args[0].L) == 2 {
+			v := x.freshResult(st, "reflect.ValueOf", resT)
+			if x.reflectOf == nil {
+				x.reflectOf = map[int]Value{}
+			}
+			if len(v.L) > 0 {
+				x.reflectOf[v.L[0].ID] = args[0]
+			}
+			return v, true
+		}
+	case "reflect.Value.Comparable":
+		// decided when every dynamic type inside the value is known on this path
+		if len(args) == 1 && len(args[0].L) > 0 {
+			if iv, ok := x.reflectOf[args[0].L[0].ID]; ok {
+				if x.unhashableDyn(iv.L[0], iv.L[1]) != nil {
+					return Value{T: resT, L: []*Term{c.False()}}, true
+				}
+				if iv.L[0].Op == "intlit" && x.groundLit(iv.L[1]) {
+					return Value{T: resT, L: []*Term{c.True()}}, true
+				}
+			}
+			return x.freshResult(st, "reflect.Comparable", resT), true
+		}
 	case "strings.HasPrefix":
 		// s starts with prefix: pure. Both literal: decided here; literal prefix: its length and
 		// bytes compared one by one; otherwise the standard library body is used if loaded.
